@@ -626,14 +626,19 @@ def check_C13(ctx):
         'abandoned receivers and retransmission, and are injected at message level in the component replay only',
         'an error returned by the WALEntryApplier in the middle of a message is outside the specification',
         'system samples are taken every 50 ms from a scan during which the replica engine executed no write']
+    # the system scenarios (harness processes only) run while the models are checked and the components replayed
+    ctx.kvh()
+    jobs = sys_jobs(ctx, 3 if ctx.quick() else 35, with_fixed=True, restart=1 if ctx.quick() else 5)
+    pool = cf.ThreadPoolExecutor(max_workers=1)
+    sysfut = pool.submit(run_sys_jobs, ctx, jobs, 'c13-')
     mc(ctx, [('KevoRepl', 'MC_Repl_applier.cfg' if ctx.quick() else 'MC_Repl_applier_thorough.cfg', 280 if ctx.quick() else 1200),
              ('KevoRepl', 'MC_Repl_quick.cfg', 200)],
        negatives=[('KevoRepl', 'MC_Repl_neg_split.cfg', 'NoSplitBatch')])
     component(ctx, 200 if ctx.quick() else 1500, 3 if ctx.quick() else 6)
     sender(ctx, 14 if ctx.quick() else 120)
     replay_witnesses(ctx, 'C13')
-    jobs = sys_jobs(ctx, 3 if ctx.quick() else 35, with_fixed=True, restart=1 if ctx.quick() else 5)
-    runs = run_sys_jobs(ctx, jobs, 'c13-')
+    runs = sysfut.result()
+    pool.shutdown()
     sys_stats(ctx, jobs, runs)
     judge(ctx, 'C13', jobs, runs, rerun_sys(ctx), 'c13sys')
     sys_selftest(ctx, runs)
@@ -662,11 +667,15 @@ def check_C14(ctx):
         'primary and replica run in one process (wired as cmd/kevo does: replication.Manager over loopback TCP); replica restarts are graceful',
         'link faults below gRPC (proxy-level cuts) are not injected here: the stream is cut only by restarts and by the C15 fault client',
         'liveness is model-checked for small constants; on the implementation it is the finite deadline above']
+    ctx.kvh()
+    jobs = sys_jobs(ctx, 5 if ctx.quick() else 55, with_fixed=True, restart=0 if ctx.quick() else 4)
+    pool = cf.ThreadPoolExecutor(max_workers=1)
+    sysfut = pool.submit(run_sys_jobs, ctx, jobs, 'c14-')
     mc(ctx, [('KevoRepl', 'MC_Repl_live.cfg', 280), ('KevoRepl', 'MC_Repl_two.cfg', 280)],
        negatives=[('KevoRepl', 'MC_Repl_neg_rotate.cfg', 'Converges')])
     replay_witnesses(ctx, 'C14')
-    jobs = sys_jobs(ctx, 5 if ctx.quick() else 55, with_fixed=True, restart=0 if ctx.quick() else 4)
-    runs = run_sys_jobs(ctx, jobs, 'c14-')
+    runs = sysfut.result()
+    pool.shutdown()
     sys_stats(ctx, jobs, runs)
     judge(ctx, 'C14', jobs, runs, rerun_sys(ctx), 'c14sys')
     sys_selftest(ctx, runs)
